@@ -2024,3 +2024,79 @@ pub fn numeric_edge_case(r: &mut Rng) -> (String, Doc) {
   let doc = if schema.contains("[*") { Doc::Array((0..r.range(1, 5)).map(|_| pick(r)).collect()) } else { pick(r) };
   (schema, doc)
 }
+
+// ------------------------------------------------------------------------------------------------
+// control-operator matrix: every registered control with plausible and awkward controllers, applied to the
+// target types it is meant for (and some it is not), against documents with non-ASCII text, boundary
+// lengths and edge numbers
+
+const NONASCII_TEXTS: &[&str] = &["", "a", "abc", "ééé", "日本", "😀", "€", "a\u{301}", "ｆｕｌｌ", "\u{feff}x", "Ωmega-3", "ß", "12", "-7", "0", "1e3", "SGVsbG8", "68656c6c6f", "00ff", "JBSWY3DP", "A B", "%", "%%", "%d", "\n", "\t"];
+
+pub fn control_matrix_case(r: &mut Rng) -> (String, Doc) {
+  let lit = |s: &str| cddl_text_literal(s);
+  let t1 = *r.pick(NONASCII_TEXTS);
+  let t2 = *r.pick(NONASCII_TEXTS);
+  let n1 = *r.pick(&["0", "1", "2", "3", "5", "7", "8", "9", "16", "63", "64", "65", "255", "256", "-1", "18446744073709551615"]);
+  let n2 = *r.pick(&["0", "1", "2", "4", "5", "10", "64", "100"]);
+  let fmt = *r.pick(&["%d", "%5d", "%-5d", "%05d", "%x", "%X", "%o", "%c", "%2c", "%s", "%5s", "%-5s", "%04s", "%10s", "%.2s", "%e", "%f", "%.3f", "%g", "%%", "%5%", "%", "%q", "%ld", "%*d", "%1$s", "%s %s", "%d-%s", "x%sy%dz", "%3s|%-3s|"]);
+  let (target, ctrl, controller): (String, &str, String) = match r.below(30) {
+    0 => ("tstr".into(), ".size", n1.to_string()),
+    1 => ("bstr".into(), ".size", format!("({}..{})", n2, n1)),
+    2 => ("uint".into(), ".size", n2.to_string()),
+    3 => ("uint".into(), ".bits", format!("&(a: {}, b: {}, c: 63, d: 64)", n2, n1)),
+    4 => ("bstr".into(), ".bits", format!("&(a: {}, b: {})", n1, n2)),
+    5 => ("tstr".into(), *r.pick(&[".regexp", ".pcre", ".iregexp"]), lit(*r.pick(&["", ".", "é+", "[日本]+", "^\\p{L}+$", "(?i)ß", "a{2}", "\\d+", "(a|b)*c", "^$", "[", "(?<x>a)\\k<x>", "\\u{1F600}"]))),
+    6 => ("bstr".into(), *r.pick(&[".cbor", ".cborseq"]), (*r.pick(&["int", "[* int]", "{ a: tstr }", "any", "tstr .size 2"])).to_string()),
+    7 => ("int".into(), *r.pick(&[".lt", ".le", ".gt", ".ge", ".eq", ".ne"]), n1.to_string()),
+    8 => ("tstr".into(), *r.pick(&[".eq", ".ne", ".default"]), lit(t1)),
+    9 => (lit(t1), *r.pick(&[".cat", ".det"]), lit(t2)),
+    10 => (format!("'{}'", t1.replace('\'', "").replace('\\', "").replace('\n', "").replace('\t', "")), *r.pick(&[".cat", ".det"]), lit(t2)),
+    11 => (lit(t1), ".cat", format!("({} .det {})", lit(t2), lit("\n  x\n  y"))),
+    12 => (n2.to_string(), ".plus", n1.to_string()),
+    13 => ("tstr".into(), *r.pick(&[".abnf", ".abnfb"]), lit(*r.pick(&["r\nr = 1*DIGIT\n", "r\nr = *(%x00-10FFFF)\n", "r\nr = \"é\"\n", "r\nr = %xE9\n", "r\nr = 2*3ALPHA / \"-\"\n", "r\nr = <prose>\n", "r\nr = r2\nr2 = *r2\n"]))),
+    14 => ("bstr".into(), ".abnfb", lit("r\nr = 1*%x00-FF\n")),
+    15 => ("tstr".into(), *r.pick(&[".b64u", ".b64c", ".b64u-sloppy", ".b64c-sloppy", ".hex", ".hexlc", ".hexuc", ".b32", ".h32", ".b45"]), (*r.pick(&["bstr", "'hello'", "h'00ff'", "bytes .size 2", "''"])).to_string()),
+    16 => ("tstr".into(), ".base10", (*r.pick(&["int", "uint", "5", "-7", "0", "18446744073709551615", "1.5"])).to_string()),
+    17 => ("tstr".into(), ".printf", format!("[{}, {}]", lit(fmt), lit(t1))),
+    18 => ("tstr".into(), ".printf", format!("[{}, {}]", lit(fmt), n1)),
+    19 => ("tstr".into(), ".printf", format!("[{}, {}, {}]", lit(fmt), lit(t1), *r.pick(&["8364", "128512", "65", "0", "-1", "1114112", "55296"]))),
+    20 => ("tstr".into(), ".printf", format!("[{}]", lit(fmt))),
+    21 => ("tstr".into(), ".json", (*r.pick(&["int", "[* int]", "{ a: tstr }", "any", "tstr"])).to_string()),
+    22 => ("tstr".into(), ".join", format!("[{}, {}, {}]", lit(t1), lit(t2), lit(*r.pick(NONASCII_TEXTS)))),
+    23 => ("tstr".into(), ".join", (*r.pick(&["[]", "[* tstr]", "[\"a\", tstr, \"b\"]", "[1, 2]", "['x', 'y']"])).to_string()),
+    24 => ("bstr".into(), ".join", format!("['{}', h'00ff', 'z']", "ab")),
+    25 => ("tstr".into(), *r.pick(&[".within", ".and"]), (*r.pick(&["tstr .size 3", "text .regexp \"a+\"", "int", "\"abc\" / \"ééé\""])).to_string()),
+    26 => ("uint".into(), *r.pick(&[".within", ".and"]), format!("0..{}", n1)),
+    27 => ("tstr".into(), ".feature", (*r.pick(&["\"featx\"", "[\"featx\", 1]", "\"\"", "\"é\""])).to_string()),
+    28 => ("int".into(), ".default", n1.to_string()),
+    _ => ("tstr".into(), *r.pick(&[".size", ".bits", ".lt", ".cbor", ".plus", ".b64u", ".printf", ".join", ".base10"]), (*r.pick(&["tstr", "nil", "[]", "{}", "1.5", "-1", "\"x\"", "h''"])).to_string()),
+  };
+  let schema = match r.below(4) {
+    0 => format!("root = [* item]\nitem = {} {} {}\n", target, ctrl, controller),
+    1 => format!("root = {{ * tstr => v }}\nv = ({} {} {}) / nil\n", target, ctrl, controller),
+    _ => format!("root = {} {} {}\n", target, ctrl, controller),
+  };
+  let mut vals: Vec<Doc> = Vec::new();
+  for _ in 0..r.range(1, 4) {
+    vals.push(match r.below(6) {
+      0 | 1 => Doc::Text((*r.pick(NONASCII_TEXTS)).to_string()),
+      2 => Doc::Text(boundary_doc_text(r)),
+      3 => Doc::Int(*r.pick(&[0i128, 1, 5, 7, 9, 63, 64, 255, 256, -1, 18446744073709551615, -9223372036854775808])),
+      4 => Doc::Bytes(match r.below(4) {
+        0 => vec![],
+        1 => vec![0x01],
+        2 => vec![0x82, 0x01],
+        _ => (0..r.range(1, 9)).map(|_| r.byte()).collect(),
+      }),
+      _ => Doc::Float(*r.pick(&[0.5, -0.0, 1e300, f64::NAN])),
+    });
+  }
+  let doc = if schema.starts_with("root = [*") {
+    Doc::Array(vals)
+  } else if schema.starts_with("root = {") {
+    Doc::Map(vals.into_iter().enumerate().map(|(i, v)| (Doc::Text(format!("k{}", i)), v)).collect())
+  } else {
+    vals.remove(0)
+  };
+  (schema, doc)
+}
